@@ -9,13 +9,19 @@ claimed = {
  "C04": ("due-only selection, row-lock atoms, per-element lease update in the selecting transaction, postpone-only guard, backoff data dependence", "§4 C04"),
  "C05": ("same-key predecessor lookup shape, link dominance, exact eligibility gate, SET NULL foreign key in schema and SQL", "§4 C05"),
  "C06": ("callers and trigger dominance of dead-lettering, either-or reachability, retire-on-every-success-path, forward set atoms", "§4 C06"),
+ "C07": ("path enumeration of the routing gate, grammar-tag / constant / switch agreement (K7), purity of the evaluator's call closure, idiom-bound leaf shapes", "§4 C07"),
+ "C08": ("validate-before-persist dominance on the same string, printer sanitisation data dependence, identifier guard of unquoted names, printer exhaustiveness", "§4 C08"),
  "C09": ("error-flow (K5) over every storage call, commit-hook discipline (K4), transaction-helper dominance, one-operation-one-transaction", "§4 C09"),
  "C10": ("register-before-query on every path from entry and wake edges, broadcast-loop exits, writers-notify path rule, lockset over the waiter maps", "§4 C10"),
+ "C11": ("must-lockset over the streamer's shared state, pending-before-send dominance, limits-minus-pending loop shape, wake-after-release path rule, interval analysis of effectiveFlowControl", "§4 C11"),
  "C12": ("live-only name resolution atoms, create/exists/duplicate-key mapping, soft-delete mutators, unique indexes, List sibling agreement and keyset pagination", "§4 C12"),
  "C13": ("partition atoms of the seek updates over the same operands, re-open mutators, snapshot content queries", "§4 C13"),
  "C14": ("creation timestamps data dependence, expiry refresh dominance, sweep atoms, delay guard", "§4 C14"),
  "C15": ("exact selection atoms of every prune job, age threshold shape, referential actions, service registry", "§4 C15"),
  "C16": ("abstract interpretation (intervals/nilness/emptiness/zero-time, bounded disjunctive states, request taint) of every RPC handler against the constructors' panic preconditions and nil dereferences", "§4 C16"),
+ "C17": ("data dependence of every configuration field request → parameter → column → response, update-mask path → column-set table, no-op shortcut coverage", "§4 C17"),
+ "C18": ("atomic-only access to the shared count, sign-wise reachability of the firing call, must-lockset over the fault table, subset-match dominance, pooled map clearing", "§4 C18"),
+ "C19": ("status-comparison → outcome-queue table, envelope data dependence, inductive interval invariant of the push window, must-lockset, queue → Ack/Nack mapping", "§4 C19"),
 }
 technique = {
  "C16": "static analysis: abstract interpretation over go/ssa (finite domains, trace partitioning, request taint) + transaction-discipline dominance rules",
